@@ -19,7 +19,7 @@ from concurrent.futures import ThreadPoolExecutor
 
 VERIF = os.path.dirname(os.path.dirname(os.path.abspath(__file__)))
 REPO = os.environ.get("VERIF_REPO", "/repo")
-BUILD = os.path.join(VERIF, ".build")
+BUILD = os.environ.get("VERIF_BUILD_DIR") or os.path.join(VERIF, ".build")
 TARGET = os.path.join(BUILD, "target")
 GARDEN = os.path.join(TARGET, "debug", "garden")
 SPEC = os.path.join(VERIF, "spec")
